@@ -256,6 +256,9 @@ def run(ctx):
             continue
         v = [x for x in vocabulary(f, names, tables) if not x.startswith("hdr")]
         ctx.rng.shuffle(v)
+        # worksheets() reads every sheet (some of the generated workbooks hold one that fails) and
+        # is therefore always among the calls tried
+        v = ["wsall"] + [x for x in v if x != "wsall"]
         for x in v[:ctx.scale(6, 100)]:
             n = ctx.rng.choice(names)
             hist.append((f, p, names, ["hdr %s" % ctx.rng.choice(["1", "2", "3"]), x, "range " + n] + (["ref " + n] if f in HAS_REF else [])))
